@@ -10,3 +10,9 @@ open A2l.Tree
 #print axioms bumpItems_def
 #print axioms bumpOff_def
 #print axioms bumpItems_no_comments
+#print axioms chunk_def
+#print axioms endOffOf_def
+#print axioms endsInLineComment_def
+#print axioms endOffOf_of_pos
+#print axioms endOffOf_of_no_line_comment
+#print axioms end_behind_line_comment_newline
